@@ -13,7 +13,8 @@ VARIABLES tid, l, bad
 tvars == <<tid, l, bad>>
 T == Trace[tid]
 TInit == /\ tid \in 1..Len(Trace) /\ l = 0 /\ bad = 0
-         /\ P = [n |-> T.n, fail |-> {<<c[1], c[2]>> : c \in {T.fail[k] : k \in 1..Len(T.fail)}}, policy |-> T.policy, op |-> T.op]
+         /\ P = [n |-> T.n, fail |-> {<<c[1], c[2]>> : c \in {T.fail[k] : k \in 1..Len(T.fail)}}, policy |-> T.policy, op |-> T.op,
+                 skip |-> {T.skip[k] : k \in 1..Len(T.skip)}]
          /\ i = 0 /\ out = <<>> /\ pc = "run" /\ last = <<>>
 E_ == T.events[l + 1]
 TStep == /\ l < Len(T.events) /\ l' = l + 1 /\ UNCHANGED tid
